@@ -130,7 +130,7 @@ def run(rep):
             for (pf, mf), (pj, mj) in zip(c.masks, j.masks):
                 if mf is None or mj is None:
                     continue
-                rep.check(mf == mj, "R02.a", file, f"{name}._jacobian", f"{name} [{ctext}]: mask expression",
+                rep.check(tmethods.mask_equal(mf, mj), "R02.a", file, f"{name}._jacobian", f"{name} [{ctext}]: mask expression",
                           f"forward {F.show(mf)} ; jacobian {F.show(mj)}", line=line)
             # domain conditions
             for dcond in j.domains:
